@@ -19,5 +19,6 @@ import (
 	_ "verifharness/props/c15"
 	_ "verifharness/props/c16"
 	_ "verifharness/props/c17"
+	_ "verifharness/props/c18"
 	_ "verifharness/props/c20"
 )
